@@ -163,7 +163,11 @@ def diff_param(path, want, got, out, kind, opts=None):
         wt = gt if gt in ok_t else "str"  # N_argparse: a type argparse cannot express (here: none given) falls back to str
     if wt != gt:
         out.append({"path": path + ".typ", "want": wt, "got": gt})
-    wd, gd = canon_doc(want.get("doc")), canon_doc(got.get("doc"))
+    if "wrap" in ks:
+        # relational comparison of two parses of the same description: only runs of whitespace may differ
+        wd, gd = " ".join((want.get("doc") or "").split()) or None, " ".join((got.get("doc") or "").split()) or None
+    else:
+        wd, gd = canon_doc(want.get("doc")), canon_doc(got.get("doc"))
     if wd != gd:
         out.append({"path": path + ".doc", "want": wd, "got": gd})
     if (ks & set(STYLES)) and opts is not None and not opts.get("emit_default_doc", True):
